@@ -31,6 +31,17 @@ def mk_list(n):
 
 
 def case(rep, drv, rnd, i, tier):
+    with common.deep_recursion():
+        pass
+    return _case(rep, drv, rnd, i, tier)
+
+
+def sxd(x):
+    with common.deep_recursion():
+        return sx(x)
+
+
+def _case(rep, drv, rnd, i, tier):
     fam = rnd.choice(list(FAMILIES) + ['random', 'random'])
     limit = rnd.choice([100, 120, 150, 200, 250, 300, 400])
     raise_at = rnd.choice([None, None, None, 1, 2, 5])
@@ -55,15 +66,17 @@ def case(rep, drv, rnd, i, tier):
                 prog = [c for c in prog if c[0] != 'slot']
                 dyn = [('assert', 'slot', 'z', [[Sym('a'), 'k'], [Sym('v'), 30]])]
         elif fam == 'mem':
-            n = rnd.choice([3, 10, 40, 150])
+            n = rnd.choice([3, 10, 40, 150, 600])
             name, args = 'mem', [[Sym('v'), 0], mk_list(n)]
-            shallow = n <= 10 and limit >= 200
+            if n == 600:
+                limit = rnd.choice([2500, 4000])       # a limit above the interpreter's own (1000): must be honoured
+            shallow = (n <= 10 and limit >= 200) or n == 600
         else:
             name, args = 'mixed', [[Sym('v'), 0]]
     rep.evaluations += 1
     rep.count('family:' + fam)
     rep.count('raise_at=%s' % raise_at)
-    payload = {'prolog': S.program_text(prog), 'query': sx([name] + args), 'limit': limit, 'raise_at': raise_at, 'dynamic': sx(dyn)}
+    payload = {'prolog': S.program_text(prog), 'query': sxd([name] + args), 'limit': limit, 'raise_at': raise_at, 'dynamic': sxd(dyn)}
     eng = R.RealEngine()
     eng.load(prog)
     for d in dyn:
@@ -82,12 +95,12 @@ def case(rep, drv, rnd, i, tier):
         bad = 'recursion limit not restored: %d -> %d' % (lim0, lim1)
     elif bound != before_bound:
         bad = '%d variables still bound after evaluate_bounded returned (caller still holds the query)' % (bound - before_bound)
-    elif sx(ending) not in ('done', '(exn "ConsumerError")'):
-        bad = 'unexpected exception escaped: ' + sx(ending)
-    elif raise_at is None and sx(ending) != 'done':
+    elif sxd(ending) not in ('done', '(exn "ConsumerError")'):
+        bad = 'unexpected exception escaped: ' + sxd(ending)
+    elif raise_at is None and sxd(ending) != 'done':
         bad = 'exception without a raising projection'
     if bad:
-        rep.violation(dict(payload, kind=bad, result=sx(res)))
+        rep.violation(dict(payload, kind=bad, result=sxd(res)))
         return
     # prefix of the true answer sequence (the model with ample fuel)
     k = len(answers)
@@ -95,21 +108,21 @@ def case(rep, drv, rnd, i, tier):
     try:
         if k > 0:
             m = drv.ask(R.scenario_model(ops + [('query', name, ('stop', k), args)], 'reference', 6000))[-1]
-            if 'oof' not in sx(m) and 'cyclic' not in sx(m) and sx(m[1]) != sx(answers):
-                rep.violation(dict(payload, kind='result is not a prefix of the answer sequence', result=sx(answers), reference=sx(m[1])))
+            if 'oof' not in sxd(m) and 'cyclic' not in sxd(m) and sxd(m[1]) != sxd(answers):
+                rep.violation(dict(payload, kind='result is not a prefix of the answer sequence', result=sxd(answers), reference=sxd(m[1])))
                 return
         if shallow and raise_at is None:
-            m = drv.ask(R.scenario_model(ops + [('query', name, ('all',), args)], 'reference', 6000))[-1]
-            if 'oof' not in sx(m) and 'cyclic' not in sx(m) and sx(m[1]) != sx(answers):
+            m = drv.ask(R.scenario_model(ops + [('query', name, ('all',), args)], 'reference', 20000))[-1]
+            if 'oof' not in sxd(m) and 'cyclic' not in sxd(m) and sxd(m[1]) != sxd(answers):
                 rep.violation(dict(payload, kind='a finite search within the limit did not return every answer',
-                                   result=sx(answers), reference=sx(m[1])))
+                                   result=sxd(answers), reference=sxd(m[1])))
                 return
     except common.ModelTimeout:
         rep.count('model-budget-exceeded-skipped')
-    if raise_at is not None and sx(ending) == 'done' and k >= raise_at:
-        rep.violation(dict(payload, kind='projection exception was swallowed', result=sx(res)))
+    if raise_at is not None and sxd(ending) == 'done' and k >= raise_at:
+        rep.violation(dict(payload, kind='projection exception was swallowed', result=sxd(res)))
         return
-    rep.nontriv(sx([fam, limit, raise_at, k]))
+    rep.nontriv(sxd([fam, limit, raise_at, k]))
     rep.count('answers>0' if k else 'answers=0')
     if i < 3:
         rep.sample(dict(payload, answers=k))
